@@ -251,6 +251,196 @@ def observe_handle(ag, gen, test_cases, orig_handle, lazy_stream=None):
     return obs, orig_exec
 
 
+def make_holds_checker():
+    """Independent re-execution oracle: evaluates every kept assertion right after its statement was
+    executed (also when the statement raised), without RemoteAssertionVerificationObserver."""
+    import libcst as cst
+
+    import pynguin.assertion.assertion as ass
+    from pynguin.assertion.assertion_to_ast import assertion_to_cst
+    from pynguin.testcase.execution import RemoteExecutionObserver
+
+    class HoldsChecker(RemoteExecutionObserver):
+        def __init__(self):
+            super().__init__()
+            self.violations = []
+            self.position = 0
+            self.checked = 0
+
+        def before_test_case_execution(self, test_case):  # noqa: ARG002
+            self.position = 0
+            self.violations = []
+
+        def after_statement_execution(self, statement, executor, namespace, exception):  # noqa: ARG002
+            position = self.position
+            self.position += 1
+            for idx, assertion in enumerate(statement.assertions):
+                if isinstance(assertion, ass.ExceptionAssertion):
+                    self.checked += 1
+                    if exception is None or type(exception).__name__ != assertion.exception_type_name:
+                        self.violations.append((position, idx, f"expected {assertion.exception_type_name}, got {exception!r}"))
+                    continue
+                node = assertion_to_cst(assertion)
+                if node is None:
+                    continue
+                source = cst.Module(body=[node]).code.strip()
+                self.checked += 1
+                try:
+                    exec(compile(source, "<recheck>", "exec"), namespace)  # noqa: S102
+                except BaseException as exc:  # noqa: BLE001
+                    self.violations.append((position, idx, f"`{source}` after a statement that raised {exception!r}: "
+                                                           f"{type(exc).__name__}: {exc}"[:300]))
+
+        def after_test_case_execution(self, executor, test_case, result):
+            pass
+
+    return HoldsChecker()
+
+
+STATEFUL_SUT = '''
+"""Stateful subjects: the second execution of the same call behaves differently."""
+
+_names = []
+_budget = {"left": 1}
+_seen = set()
+
+
+def register(name: str) -> int:
+    if name in _names:
+        raise ValueError(f"duplicate name {name!r}")
+    _names.append(name)
+    return len(_names) * 0 + 1
+
+
+def take(amount: int) -> int:
+    if _budget["left"] < amount:
+        raise RuntimeError("budget exhausted")
+    _budget["left"] -= amount
+    return amount + 41
+
+
+def first_time(key: str) -> bool:
+    if key in _seen:
+        raise KeyError(key)
+    _seen.add(key)
+    return True
+
+
+def stable(x: int) -> int:
+    return x * 2 + 1
+
+
+class Once:
+    used = False
+
+    def fire(self) -> str:
+        if Once.used:
+            raise RuntimeError("already fired")
+        Once.used = True
+        return "fired"
+'''
+
+
+def run_stateful(spec: dict) -> dict:
+    """Hand-built test cases on a stateful module: a statement succeeds in the capture pass and raises
+    in the in-process filtering re-execution.  Afterwards every kept assertion is re-checked by the
+    independent HoldsChecker."""
+    out = {"spec": spec, "cases": [], "fails": [], "stats": {}, "error": None}
+    scratch = Path(spec["scratch"])
+    try:
+        sys.path.insert(0, str(Path(__file__).resolve().parents[1]))
+        import vlib
+
+        vlib.setup_impl_path()
+        import importlib
+        import logging
+        import random
+
+        logging.disable(logging.CRITICAL)
+        import libcst as cst
+
+        import pynguin.assertion.assertiongenerator as ag
+        import pynguin.configuration as config
+        import pynguin.ga.testcasechromosome as tcc
+        import pynguin.ga.testsuitechromosome as tsc
+        import pynguin.testcase.testcase as tc
+        from pynguin.instrumentation.machinery import install_import_hook
+        from pynguin.instrumentation.tracer import SubjectProperties
+        from pynguin.testcase.execution import TestCaseExecutor
+        from pynguin.utils.naming import get_module_alias
+
+        rng = random.Random(spec["seed"])
+        scratch.mkdir(parents=True, exist_ok=True)
+        module_name = "c21_stateful_sut"
+        (scratch / f"{module_name}.py").write_text(STATEFUL_SUT.lstrip("\n"))
+        sys.path.insert(0, str(scratch))
+        config.configuration.module_name = module_name
+        alias = get_module_alias(module_name)
+
+        def stmt(code, var, typ=None):
+            node = cst.parse_module(code + "\n").body[0]
+            return tc.Statement(node=node, bound_variable=var, bound_type=typ)
+
+        stats = {"stateful_tests": 0, "stateful_checked": 0, "stateful_kept": 0, "stateful_raise_on_rerun": 0}
+        sp = SubjectProperties()
+        with install_import_hook(module_name, sp):
+            with sp.instrumentation_tracer:
+                importlib.import_module(module_name)
+            executor = TestCaseExecutor(sp)
+            uid = 0
+            for _round in range(spec["rounds"]):
+                tests = []
+                for _t in range(rng.choice([1, 2, 3])):
+                    t = tc.TestCase()
+                    n = 0
+                    for _s in range(rng.choice([1, 2, 3])):
+                        uid += 1
+                        kind = rng.choice(["register", "register", "take", "first", "once", "stable", "stable"])
+                        if kind == "register":
+                            t.add_statement(stmt(f"str_{n} = 'name{uid}'", f"str_{n}", str))
+                            t.add_statement(stmt(f"int_{n} = {alias}.register(str_{n})", f"int_{n}", int))
+                        elif kind == "take":
+                            t.add_statement(stmt(f"int_{n} = {alias}.take(1)", f"int_{n}", int))
+                        elif kind == "first":
+                            t.add_statement(stmt(f"bool_{n} = {alias}.first_time('k{uid}')", f"bool_{n}", bool))
+                        elif kind == "once":
+                            t.add_statement(stmt(f"once_{n} = {alias}.Once()", f"once_{n}"))
+                            t.add_statement(stmt(f"str_{n} = once_{n}.fire()", f"str_{n}", str))
+                        else:
+                            t.add_statement(stmt(f"int_{n} = {alias}.stable({rng.randrange(9)})", f"int_{n}", int))
+                        n += 1
+                    tests.append(t)
+                suite = tsc.TestSuiteChromosome()
+                for t in tests:
+                    suite.add_test_case_chromosome(tcc.TestCaseChromosome(t))
+                # reset the budget/once state so that the capture pass succeeds once more
+                mod = sys.modules[module_name]
+                mod._budget["left"] = 1
+                mod.Once.used = False
+                suite.accept(ag.AssertionGenerator(executor, rng.choice([1, 1, 2])))
+                for t in tests:
+                    checker = make_holds_checker()
+                    with executor.temporarily_add_remote_observer(checker):
+                        res = executor.execute(t)
+                    stats["stateful_tests"] += 1
+                    stats["stateful_checked"] += checker.checked
+                    stats["stateful_kept"] += sum(len(s.assertions) for s in t.statements())
+                    stats["stateful_raise_on_rerun"] += int(res.has_test_exceptions())
+                    if checker.violations and not res.timeout:
+                        code = [cst.Module(body=[s.node]).code.strip() for s in t.statements()]
+                        out["fails"].append({
+                            "signature": "holding:kept-assertion-fails-on-original",
+                            "what": f"stateful subject: {len(checker.violations)} kept assertion(s) do not hold when the test is "
+                                    f"re-executed on the unmutated module: {checker.violations[:2]}",
+                            "replay": {"spec": spec, "test": code, "violated": checker.violations[:5]}})
+        out["stats"] = stats
+    except BaseException as e:  # noqa: BLE001
+        out["error"] = f"{type(e).__name__}: {e}\n" + traceback.format_exc()[-2500:]
+    finally:
+        shutil.rmtree(scratch, ignore_errors=True)
+    return out
+
+
 # ---------------------------------------------------------------------------------------------
 def run_real(spec: dict) -> dict:
     """One real pynguin run in this (fresh) process.  Returns captured CRun observations, direct
@@ -309,24 +499,24 @@ def run_real(spec: dict) -> dict:
                 return [repr(test)]
 
         def holding_check(self, test_cases):
-            """S(a): every assertion left holds when the test is re-executed on the original."""
+            """S(a): every assertion left holds when the test is re-executed on the original
+            (independent checker, not the implementation's verification observer)."""
             plain = self._plain_executor
-            with plain.temporarily_add_remote_observer(ato.RemoteAssertionVerificationObserver()):
-                results = list(plain.execute_multiple(test_cases))
-            for t, r in zip(test_cases, results):
+            for t in test_cases:
+                checker = make_holds_checker()
+                with plain.temporarily_add_remote_observer(checker):
+                    r = plain.execute(t)
                 stats["reexecuted"] += 1
                 if r.timeout:
                     continue
-                tr = r.assertion_verification_trace
-                bad = {(p, i) for d in (tr.failed, tr.error) for p, idxs in d.items() for i in idxs}
                 n_ass = sum(len(s.assertions) for s in t.statements())
                 stats["assertions_kept"] += n_ass
-                if bad:
+                if checker.violations:
                     out["fails"].append({
                         "signature": "holding:kept-assertion-fails-on-original",
-                        "what": f"{len(bad)} kept assertion(s) fail when the test is re-executed on the unmutated "
-                                f"module {spec['module']}: positions {sorted(bad)}",
-                        "replay": {"spec": spec, "test": render(t), "violated": sorted(bad)}})
+                        "what": f"{len(checker.violations)} kept assertion(s) fail when the test is re-executed on the unmutated "
+                                f"module {spec['module']}: {checker.violations[:2]}",
+                        "replay": {"spec": spec, "test": render(t), "violated": checker.violations[:5]}})
                 else:
                     stats["held"] += n_ass
 
@@ -459,7 +649,7 @@ if __name__ == "__main__":
     import json
 
     spec = json.loads(sys.argv[1])
-    result = run_real(spec)
+    result = run_stateful(spec) if spec.get("kind") == "stateful" else run_real(spec)
     with open(sys.argv[2], "w") as fh:
         json.dump(result, fh, default=repr)
     sys.stdout.flush()
